@@ -13,8 +13,8 @@ Definition answer (n r : N) : N := (n * 7919 + r * 104729 + 13) mod 1000003.
    call failed *)
 Definition chanrec := (N * list call * list N * list call * bool)%type.
 (* mailbox bound, channels, a schedule seed for the model, hung, close() = Ok, the broker could
-   not parse the client's stream *)
-Definition case := (N * list chanrec * list N * bool * bool * bool)%type.
+   not parse the client's stream, the server went away (end of stream) at some point *)
+Definition case := (N * list chanrec * list N * bool * bool * bool * bool)%type.
 
 Definition cr_id (c : chanrec) : N := let '(n, _, _, _, _) := c in n.
 Definition cr_prog (c : chanrec) : list call := let '(_, p, _, _, _) := c in p.
@@ -54,7 +54,7 @@ Definition max_len (cs : list chanrec) : nat :=
   fold_left (fun a c => Nat.max a (length (cr_prog c))) cs 0%nat.
 
 Definition schedule (c : case) : list act :=
-  let '(_, cs, seed, _, _, _) := c in
+  let '(_, cs, seed, _, _, _, _) := c in
   let ids := map cr_id cs in
   match ids with
   | [] => []
@@ -64,11 +64,11 @@ Definition schedule (c : case) : list act :=
 Definition c_reply_cap : N := 2.
 
 Definition model_final (c : case) : sys :=
-  let '(bound, cs, _, _, _, _) := c in
+  let '(bound, cs, _, _, _, _, _) := c in
   yrun answer (N.max 1 bound) c_reply_cap (init_sys (progs_of cs)) (schedule c).
 
 Definition model_out (c : case) : list (N * list N * bool) * bool :=
-  let '(_, cs, _, _, _, _) := c in
+  let '(_, cs, _, _, _, _, _) := c in
   let s := model_final c in
   (map (fun r => (cr_id r, yc_results (y_ch s (cr_id r)),
                   match yc_prog (y_ch s (cr_id r)) with [] => negb (yc_wait (y_ch s (cr_id r))) | _ => false end)) cs,
@@ -77,25 +77,54 @@ Definition model_out (c : case) : list (N * list N * bool) * bool :=
 Definition call_eqb (a b : call) : bool :=
   Bool.eqb (is_sync a) (is_sync b) && (snd a =? snd b).
 
+Fixpoint is_prefix (a b : list N) : bool :=
+  match a, b with
+  | [], _ => true
+  | x :: a', y :: b' => (x =? y) && is_prefix a' b'
+  | _, _ => false
+  end.
+
+(* when the server went away the point at which each caller was cut off depends on the
+   schedule; what the model fixes for EVERY schedule (C05_system_own_reply) is that the values
+   returned are a prefix of the model's complete run *)
 Definition model_agrees (c : case) : bool :=
-  let '(_, cs, _, hung, _, _) := c in
+  let '(_, cs, _, hung, _, _, died) := c in
   let '(rows, failed) := model_out c in
   negb failed && negb hung &&
   forallb (fun '(r, (n, res, done)) =>
-             done && negb (cr_failed r) && list_eqb N.eqb res (cr_results r))
+             done &&
+             if died then is_prefix (cr_results r) res
+             else negb (cr_failed r) && list_eqb N.eqb res (cr_results r))
           (combine cs rows).
 
-(* the property itself, on what the real program did: nobody hung, the connection closed
+(* the property itself, on what the real program did. While the server answers: nobody hung, the connection closed
    cleanly, the client's stream was well-formed, every call returned, the i-th synchronous
    call of channel n returned the broker's answer to that channel's i-th synchronous request,
    and the broker saw each channel's requests exactly as issued, in order *)
+Fixpoint is_prefix_calls (a b : list call) : bool :=
+  match a, b with
+  | [], _ => true
+  | x :: a', y :: b' => call_eqb x y && is_prefix_calls a' b'
+  | _, _ => false
+  end.
+
+(* ... and when the server goes away in the middle (C05): still nobody hangs - every caller
+   returns, with an error unless it had finished -, what the calls returned before is a prefix
+   of the right answers, and what the broker saw is a prefix of what was to be issued *)
 Definition oracle_ok (c : case) : bool :=
-  let '(_, cs, _, hung, closed, bad) := c in
-  negb hung && closed && negb bad &&
-  forallb (fun r =>
-             negb (cr_failed r) &&
-             list_eqb N.eqb (cr_results r) (map (answer (cr_id r)) (syncs (cr_prog r))) &&
-             list_eqb call_eqb (cr_seen r) (cr_prog r)) cs.
+  let '(_, cs, _, hung, closed, bad, died) := c in
+  negb hung && negb bad &&
+  if died then
+    forallb (fun r =>
+               is_prefix (cr_results r) (map (answer (cr_id r)) (syncs (cr_prog r))) &&
+               (cr_failed r || list_eqb N.eqb (cr_results r) (map (answer (cr_id r)) (syncs (cr_prog r)))) &&
+               is_prefix_calls (cr_seen r) (cr_prog r)) cs
+  else
+    closed &&
+    forallb (fun r =>
+               negb (cr_failed r) &&
+               list_eqb N.eqb (cr_results r) (map (answer (cr_id r)) (syncs (cr_prog r))) &&
+               list_eqb call_eqb (cr_seen r) (cr_prog r)) cs.
 
 Fixpoint bad_idx {A} (f : A -> bool) (i : N) (l : list A) : list N :=
   match l with
